@@ -15,10 +15,12 @@ _c = CASE or 0
 N_OPS = 2 + _c % 3          # 2..4 ops
 SPLIT = (_c // 3) % 2        # 1: two routines (first has 1 op)
 KIND1 = ["Jump", "Branch", "Call"][(_c // 6) % 3]
+RKIND = (_c // 18) % 5       # kind of one of the two routines in the split layout: generic / actor / object / performer / coroutine
 
 
 def cases() -> list[int]:
-    return list(range(18))
+    # all 18 layouts with generic routines; the split layouts with 3-4 ops again with each other routine kind
+    return list(range(18)) + [18 * k + c for k in range(1, 5) for c in (4, 5, 10, 11, 16, 17)]
 
 
 def _renumber_reference(offsets: list[int]) -> dict[int, int]:
@@ -56,14 +58,25 @@ def h_numbering(g0: int, g1: int, g2: int, g3: int, t0: int, t1: int, j0: bool, 
         routine_ops = [ops]
     infos = [SsbRoutineInfo(SsbRoutineType.GENERIC, 0) for _ in routine_ops]
     named: list[Any] = [[] for _ in routine_ops]
+    if SPLIT and RKIND:
+        which = (RKIND + _c) % 2  # the other kind comes first or second
+        rt = [SsbRoutineType.GENERIC, SsbRoutineType.ACTOR, SsbRoutineType.OBJECT, SsbRoutineType.PERFORMER,
+              SsbRoutineType.COROUTINE][RKIND]
+        infos[which] = SsbRoutineInfo(rt, 3 if rt != SsbRoutineType.COROUTINE else which)
+        if rt == SsbRoutineType.COROUTINE:
+            named[which] = "CORO_X"
     doc = cc.build_routines_json(infos, named, routine_ops)  # type: ignore
-    cd.counter.count = 0
+    if hasattr(cd, "counter"):
+        cd.counter.count = 0  # older layout: module-level counter (reset is the harness playing a fresh process)
     r_infos, r_coros, r_ops = cd.read_routines(doc)  # type: ignore
     flat = [op for r in r_ops for op in r]
     ok = len(flat) == N_OPS and [len(r) for r in r_ops] == [len(r) for r in routine_ops]
     if ok:
         for i in range(N_OPS):
-            ok = ok and flat[i].op_code.name == ops[i].op_code.name and flat[i].offset == i + 1
+            # internal offsets are the reader's business as long as they identify the ops (pairwise distinct)
+            ok = ok and flat[i].op_code.name == ops[i].op_code.name
+            for j in range(i):
+                ok = ok and flat[j].offset != flat[i].offset
             if is_jump[i]:
                 want_target_index = t0 if i % 2 == 0 else t1
                 ok = ok and flat[i].params[-1] == flat[want_target_index].offset
@@ -82,7 +95,8 @@ OBLIGATIONS = [
      "cases": cases(),
      "timeout": {"quick": 120, "thorough": 600},
      "bounds": "2-4 ops in 1-2 routines, symbolic gaps 0-2 between internal offsets, symbolic jump flags and targets, "
-               "jump kinds Jump/Branch/Call (case split)",
+               "jump kinds Jump/Branch/Call (case split); two-routine layouts also with an actor / object / performer / "
+               "coroutine routine first or second",
      "encodes": ["explorerscript.cli.compile.build_ops", "explorerscript.cli.compile.build_routines_json",
                  "explorerscript.cli.decompile.read_ops", "explorerscript.cli.decompile.read_routines"],
      "stubs": ["json.dumps/json.loads between the two commands are the identity on this data (ints, strs, lists, dicts "
@@ -117,7 +131,8 @@ def h_args(i: int, s: str, t: str, xr: int, yr: int, half_x: bool, half_y: bool)
         p = SsbOpParamFixedPoint(i, "25")
     op = SsbOperation(5, SsbOpCode(-1, "anyop"), [p, 7])
     doc = cc.build_ops([op])
-    cd.counter.count = 0
+    if hasattr(cd, "counter"):
+        cd.counter.count = 0  # older layout: module-level counter (reset is the harness playing a fresh process)
     back = cd.read_ops(doc)  # type: ignore
     ok = len(back) == 1 and back[0].op_code.name == "anyop" and len(back[0].params) == 2 and back[0].params[1] == 7
     if ok:
@@ -140,7 +155,8 @@ def h_posmark_doc_format(name: str, x: int, y: int, hx: bool, hy: bool) -> bool:
     xv: Any = halves[x + 3] if hx else wholes[x + 3]
     yv: Any = halves[y + 3] if hy else wholes[y + 3]
     doc = [{"opcode": "o", "params": [{"type": "POSITION_MARK", "value": {"name": name, "x": xv, "y": yv}}]}]
-    cd.counter.count = 0
+    if hasattr(cd, "counter"):
+        cd.counter.count = 0  # older layout: module-level counter (reset is the harness playing a fresh process)
     back = cd.read_ops(doc)  # type: ignore
     q = back[0].params[0]
     want_x, want_xo = (x, 2) if hx else (x, 0)
@@ -172,7 +188,8 @@ def h_routines(k0: int, k1: int, k2: int, n0: str, n1: str, target: int, named_t
         elif k != "GENERIC":
             r["target_id"] = names[i] if named_target else target
         doc.append(r)
-    cd.counter.count = 0
+    if hasattr(cd, "counter"):
+        cd.counter.count = 0  # older layout: module-level counter (reset is the harness playing a fresh process)
     infos, coros, ops = cd.read_routines(doc)  # type: ignore
     lookup = {c.id: c.name for c in coros}  # what ExplorerScriptSsbDecompiler.__init__ builds
     ok = len(infos) == 3 and len(ops) == 3
@@ -188,7 +205,8 @@ def h_routines(k0: int, k1: int, k2: int, n0: str, n1: str, target: int, named_t
     return verdict(ok)
 
 
-OBLIGATIONS[0]["cases"] = {"quick": [c for c in cases() if c % 3 != 2], "thorough": cases()}
+OBLIGATIONS[0]["cases"] = {"quick": [c for c in cases() if c % 3 != 2 and (c < 18 or c % 18 == 4 + 6 * ((c // 18) % 3))],
+                           "thorough": cases()}
 OBLIGATIONS[0]["bounds"] = {"quick": OBLIGATIONS[0]["bounds"].replace("2-4 ops", "2-3 ops"), "thorough": OBLIGATIONS[0]["bounds"]}
 OBLIGATIONS += [
     {"id": "C15.S2", "module": __name__, "func": "h_args",
